@@ -73,6 +73,7 @@ def run(ctx):
                     SP.one_case(eng, res, sc, args, opts, explicit, None, S.HIST_KEYS, "layout", real=True, packed=packed,
                                 pack_refs=pack_refs)
                     nlay += 1
+        SP.wide_cases(eng, res, S.HIST_KEYS, "order", quick, rng)
     finally:
         eng.close()
     res.coverage_extra["exhaustive_permutation_runs"] = nperm
